@@ -450,10 +450,14 @@ pub fn c02(ctx: &Ctx) -> PropResult {
     for src in crate::props6::deep_nesting_family() {
         cases.push(run_case(src, "deep-nesting"));
     }
+    // (appended) FOR EACH over lists of lists with every ending, outer variables of the same name
+    for src in crate::props6::for_each_list_of_lists_family() {
+        cases.push(run_case(src, "for-each-list-of-lists"));
+    }
     let stats = run_cases(&ctx.driver, cases, &newline_twin_oracle, &no_known, ctx.threads);
     PropResult {
         stats,
-        rule: "random control-flow skeletons (depth <= 3, <= 3 statements per block; IF/ELSE over 10 condition values incl. 0, -0, NULL, \"\", []; REPEAT TIMES with counts 0, 1, 2, 3, 2.7, -1, 0.99, variable; REPEAT UNTIL; FOR EACH over lists and strings incl. non-ASCII and an outer variable of the same name; BREAK/CONTINUE wherever a loop encloses) with a DISPLAY probe per statement; BREAK/CONTINUE at every position of a three-statement body of every loop form, bare and guarded, alone and nested; random general programs; non-trivial = ended normally or with a runtime error; every falsy and truthy value class as a condition REPEAT UNTIL re-tests, and under IF / unbraced IF / ELSE IF / NOT / AND / OR, directly, through a procedure and through an assignment; a callee's loop variable named like a variable of the caller; brace-less branches followed by ELSE on the same line and brace-less bodies at the very end of the input; every kind of value as the count of REPEAT n TIMES; nesting depths 1 .. 200 and chains of 1 .. 300 parts, run".into(),
+        rule: "random control-flow skeletons (depth <= 3, <= 3 statements per block; IF/ELSE over 10 condition values incl. 0, -0, NULL, \"\", []; REPEAT TIMES with counts 0, 1, 2, 3, 2.7, -1, 0.99, variable; REPEAT UNTIL; FOR EACH over lists and strings incl. non-ASCII and an outer variable of the same name; BREAK/CONTINUE wherever a loop encloses) with a DISPLAY probe per statement; BREAK/CONTINUE at every position of a three-statement body of every loop form, bare and guarded, alone and nested; random general programs; non-trivial = ended normally or with a runtime error; every falsy and truthy value class as a condition REPEAT UNTIL re-tests, and under IF / unbraced IF / ELSE IF / NOT / AND / OR, directly, through a procedure and through an assignment; a callee's loop variable named like a variable of the caller; brace-less branches followed by ELSE on the same line and brace-less bodies at the very end of the input; every kind of value as the count of REPEAT n TIMES; nesting depths 1 .. 200 and chains of 1 .. 300 parts, run; FOR EACH over lists of lists with every ending and outer variables of the loop variable's name".into(),
         exhaustive: false,
         notes: vec![],
     }
@@ -765,10 +769,14 @@ pub fn c04(ctx: &Ctx) -> PropResult {
     for src in crate::props6::self_containing_family() {
         cases.push(run_case(src, "self-containing").tag("allow-cyclic"));
     }
+    // (appended) a list that contains itself, held by others, its variable assigned something else
+    for src in crate::props6::self_containing_rebind_family() {
+        cases.push(run_case(src, "self-containing").tag("allow-cyclic"));
+    }
     let stats = run_cases(&ctx.driver, cases, &no_panic_oracle, &no_known, ctx.threads);
     PropResult {
         stats,
-        rule: "random histories (length <= 12, thorough 30) over variables a, b (lists), c (string), d (alias): literal, assignment between variables, index read / write with 14 index values (-1, 0, 0.5, 1, 1.9, 2, LENGTH, LENGTH+0.5, LENGTH+1, LENGTH+2, NaN, inf, string, NULL), APPEND, INSERT, REMOVE, LENGTH, +, passing to a procedure that mutates then reassigns its parameter, nesting in a list, aliasing; all variables displayed after every step; plus every index value on a list and a non-ASCII string for read / write / INSERT / REMOVE; non-trivial = ended normally or with a runtime error; lists handed back by procedures (the parameter, an element, a local, through a second procedure, from a loop, a copy) changed through the result and through the original; FOR EACH while the body changes the list at the current, an earlier or a later position (index write, INSERT, REMOVE, APPEND, by name / alias, every ending); the operand-order family; statements whose operands change the length of the list they address; list + over 13 x 13 kinds of operand expression; the same list for several parameters; lists that come out of library calls which do not build them (MAP_GET, MAP_INSERT's result, REMOVE's result, indexed elements) changed through the result and through the container; lists stored into lists whose contents equal theirs; lists that contain themselves, observed through LENGTH and element reads only".into(),
+        rule: "random histories (length <= 12, thorough 30) over variables a, b (lists), c (string), d (alias): literal, assignment between variables, index read / write with 14 index values (-1, 0, 0.5, 1, 1.9, 2, LENGTH, LENGTH+0.5, LENGTH+1, LENGTH+2, NaN, inf, string, NULL), APPEND, INSERT, REMOVE, LENGTH, +, passing to a procedure that mutates then reassigns its parameter, nesting in a list, aliasing; all variables displayed after every step; plus every index value on a list and a non-ASCII string for read / write / INSERT / REMOVE; non-trivial = ended normally or with a runtime error; lists handed back by procedures (the parameter, an element, a local, through a second procedure, from a loop, a copy) changed through the result and through the original; FOR EACH while the body changes the list at the current, an earlier or a later position (index write, INSERT, REMOVE, APPEND, by name / alias, every ending); the operand-order family; statements whose operands change the length of the list they address; list + over 13 x 13 kinds of operand expression; the same list for several parameters; lists that come out of library calls which do not build them (MAP_GET, MAP_INSERT's result, REMOVE's result, indexed elements) changed through the result and through the container; lists stored into lists whose contents equal theirs; lists that contain themselves, observed through LENGTH and element reads only; self-containing lists held by others whose variable is re-bound".into(),
         exhaustive: false,
         notes: vec![],
     }
@@ -1031,6 +1039,32 @@ pub fn c05(ctx: &Ctx) -> PropResult {
             }
         }
     }
+    // (appended) bare variables and literals as operands of every pair of operators in both shapes (chained relationals
+    // among them); an index directly after every kind of literal
+    {
+        let lf = |x: &str| Box::new(PExpr::Leaf(x.to_string()));
+        let mut extra: Vec<PExpr> = vec![];
+        for op1 in P_BINOPS {
+            for op2 in P_BINOPS {
+                for (a, b, c) in [("v0", "v1", "v2"), ("1", "v1", "3"), ("v0", "2", "v2")] {
+                    extra.push(PExpr::Bin(op2, Box::new(PExpr::Bin(op1, lf(a), lf(b))), lf(c)));
+                    extra.push(PExpr::Bin(op1, lf(a), Box::new(PExpr::Bin(op2, lf(b), lf(c)))));
+                }
+            }
+        }
+        for lit in ["\"abc\"", "5", "[1, 2]", "TRUE", "NULL", "\"\"", "(\"abc\")", "[[1], [2]]"] {
+            extra.push(PExpr::Index(lf(lit), lf("v0")));
+            extra.push(PExpr::Index(lf(lit), Box::new(PExpr::Leaf("P(1, v0)".into()))));
+            extra.push(PExpr::Bin("+", Box::new(PExpr::Index(lf(lit), lf("1"))), lf("v1")));
+            extra.push(PExpr::Un("-", Box::new(PExpr::Index(lf(lit), lf("2")))));
+        }
+        for (ti, t) in extra.iter().enumerate() {
+            for k in 0..3 {
+                let val = &VALUATIONS[(ti + 6 * k) % VALUATIONS.len()];
+                cases.push(run_case(pexpr_program(&t.render_min(), val), "minimal").aux(pexpr_program(&t.render_full(), val)));
+            }
+        }
+    }
     // (appended) an expression that starts with a parenthesis and continues after it, wherever an expression stands
     for (a, b) in crate::props6::leading_paren_positions() {
         cases.push(run_case(a, "expression-position").aux(b));
@@ -1056,7 +1090,7 @@ pub fn c05(ctx: &Ctx) -> PropResult {
     let stats = run_cases(&ctx.driver, cases, &oracle, &no_known, ctx.threads);
     PropResult {
         stats,
-        rule: format!("{} expression trees: every ordered pair of the 13 binary operators in both shapes, every binary operator with unary -, NOT, assignment and indexing at each operand (thorough: every triple in all five shapes), random trees with 2-8 operators incl. calls, assignment and indexing; each rendered with only the required parentheses and fully parenthesised, run under {} valuations (distinct primes, zeros for errors, mixed kinds) with a probe procedure at every leaf so that order, once-ness and short-circuiting show in the output; implementation-only oracle: both renderings behave identically (output, end class, error kind); the minimal rendering is also compared with the model; chains of postfix operators (indexing of an indexing or of a call result, two and three deep, under every binary and unary operator, as assignment target) with valuations failing at the first, second or third step; every triple of operators in the balanced shape (a . b) . (c . d); chains of 8 .. 70 operands plain / fully parenthesised / with doubled parentheses; the minimal text without any blank the lexical grammar does not need; number literals as operands after every kind of left operand; literal-only operands incl. zero divisors; required-parentheses-removed texts as a strided sample over all trees plus every tree with an assignment; assignments as index keys, call arguments and operands on both sides of every operator; expressions that start with a parenthesis and continue after it at twelve expression positions", trees.len(), per_tree),
+        rule: format!("{} expression trees: every ordered pair of the 13 binary operators in both shapes, every binary operator with unary -, NOT, assignment and indexing at each operand (thorough: every triple in all five shapes), random trees with 2-8 operators incl. calls, assignment and indexing; each rendered with only the required parentheses and fully parenthesised, run under {} valuations (distinct primes, zeros for errors, mixed kinds) with a probe procedure at every leaf so that order, once-ness and short-circuiting show in the output; implementation-only oracle: both renderings behave identically (output, end class, error kind); the minimal rendering is also compared with the model; chains of postfix operators (indexing of an indexing or of a call result, two and three deep, under every binary and unary operator, as assignment target) with valuations failing at the first, second or third step; every triple of operators in the balanced shape (a . b) . (c . d); chains of 8 .. 70 operands plain / fully parenthesised / with doubled parentheses; the minimal text without any blank the lexical grammar does not need; number literals as operands after every kind of left operand; literal-only operands incl. zero divisors; required-parentheses-removed texts as a strided sample over all trees plus every tree with an assignment; assignments as index keys, call arguments and operands on both sides of every operator; expressions that start with a parenthesis and continue after it at twelve expression positions; bare variables and literals as operands of every pair of operators in both shapes; an index directly after every kind of literal", trees.len(), per_tree),
         exhaustive: false,
         notes: vec![],
     }
